@@ -39,6 +39,33 @@ PROPS = {
         "assumptions": ["gearhash SIMD path == scalar semantics (compared on every case, not proved)",
                         "compute_data_hash of chunks is checked by the C06 suite, here only by the harness monitor"],
     },
+    "C06": {
+        "modules": ["XetProps.C06"],
+        "theorems": [
+            "Xet.Merkle.C06_branching_ok",
+            "Xet.Merkle.C06_level_shrinks",
+            "Xet.Merkle.C06_merge_terminates",
+            "Xet.Merkle.C06_producer_eq_validators",
+            "Xet.Merkle.C06_hex_roundtrip",
+            "Xet.Merkle.C06_hex_length",
+            "Xet.Merkle.C06_hex_injective",
+            "Xet.Merkle.C06_hashedwrite_streaming",
+        ],
+        "suites": ["hashes"],
+        "level_text": "Theorems for every chunk list and every choice of hash primitives: producer xorb hash = validators' route, merge "
+                      "terminates with one root and every level shrinks, hex text form round-trips and is injective, the streaming HashedWrite "
+                      "digest equals the one-shot hash for every pattern of short inner writes. 'Equals an independent implementation of the "
+                      "published construction' is decided by the correspondence: an independent Lean BLAKE3 recomputes every data/internal/"
+                      "xorb/file/range/hmac hash the Rust code produces.",
+        "design_ref": "DESIGN.md section 4, C06",
+        "technique": "Lean 4 proof over abstract hash primitives + differential correspondence with an independent Lean BLAKE3",
+        "rule": "cases = byte strings at every BLAKE3 block/chunk/tree boundary + random lengths; chunk lists of 0..5000 entries with controlled "
+                "hash[3]%4 patterns, repeated hashes (same/different length), zero hash, extreme lengths; salts; hmac keys; hex texts (valid, "
+                "upper-case, short, long, non-hex); HashedWrite with short inner writes. distinct by content hash; non-trivial = more than "
+                "one BLAKE3 chunk / at least 3 list entries",
+        "assumptions": ["BLAKE3 itself is compared against an independent implementation, not proved",
+                        "collision resistance is never assumed; sensitivity is monitored on the implementation by single edits"],
+    },
 }
 
 HOOK_COMMITS = []
